@@ -68,12 +68,13 @@ def rules(model: Model, tier: str) -> List[RuleResult]:
     P = RuleResult(PROP, "C10-P", "guarded pairing: restore on every exit (normal and exceptional) of the foreign-code region", min_instances=12)
     W = RuleResult(PROP, "C10-W", "context managers are used only as `with` items", min_instances=23)
     L = RuleResult(PROP, "C10-L", "restore stack discipline is LIFO and pushes before mutating", min_instances=4)
-    O = RuleResult(PROP, "C10-O", "nn.Module restoration re-sets every captured name in order, delete-then-set", min_instances=3)
+    O = RuleResult(PROP, "C10-O", "order preservation: nn.Module restoration re-sets every captured name in order; EditableModule.setparams deletes only in the TypeError fallback", min_instances=5)
     _who_may_call(model, M)
     _pairing(model, P)
     _with_only(model, W)
     _lifo(model, L)
     _order(model, O)
+    setparams_structure(model, O)
     return [M, P, W, L, O]
 
 
@@ -140,17 +141,50 @@ def _pairing(model: Model, P: RuleResult):
              region=_is_yield,
              restore=lambda s: _is_call_named(s, "setuniqueparams") and "orig" in ast.unparse(s).lower(),
              saved_check=("call", "getuniqueparams")),
-        Spec(MODES, "enable_debug",
-             install=lambda s: _is_call_named(s, "set_debug_mode") and "True" in ast.unparse(s), region=_is_yield,
-             restore=lambda s: _is_call_named(s, "set_debug_mode") and not isinstance(_first_arg(s), ast.Constant),
-             saved_check=("call", "is_debug_enabled")),
-        Spec(MODES, "disable_debug",
-             install=lambda s: _is_call_named(s, "set_debug_mode") and "False" in ast.unparse(s), region=_is_yield,
-             restore=lambda s: _is_call_named(s, "set_debug_mode") and not isinstance(_first_arg(s), ast.Constant),
-             saved_check=("call", "is_debug_enabled")),
         Spec(EM, "EditableModule.__list_operating_params",
              install=None, region=None, restore=None, saved_check=("call", "_get_tensors")),
     ]
+    # debug-mode managers: every generator of debug/modes.py that switches the flag (enable_debug / disable_debug themselves, or a shared
+    # helper they return) is an installer; the public names must be such a generator or return a call of one with the constant mode
+    gens = []
+    for fi in model.module(MODES).functions.values():
+        if fi.parent is None and any(isinstance(n, (ast.Yield, ast.YieldFrom)) for n in own_nodes(fi.node)) and \
+                any(isinstance(c, ast.Call) and _callee_name(c) == "set_debug_mode" for c in own_nodes(fi.node)):
+            gens.append(fi)
+
+    def saved_names(fi):
+        return {t.id for s_ in own_nodes(fi.node) if isinstance(s_, ast.Assign) and isinstance(s_.value, ast.Call) and _callee_name(s_.value) == "is_debug_enabled"
+                for t in s_.targets if isinstance(t, ast.Name)}
+    for fi in gens:
+        sv = saved_names(fi)
+        specs.append(Spec(MODES, fi.qualname,
+                          install=lambda s_, sv=sv: _is_call_named(s_, "set_debug_mode") and not (isinstance(_first_arg(s_), ast.Name) and _first_arg(s_).id in sv),
+                          region=_is_yield,
+                          restore=lambda s_, sv=sv: _is_call_named(s_, "set_debug_mode") and isinstance(_first_arg(s_), ast.Name) and _first_arg(s_).id in sv,
+                          saved_check=("call", "is_debug_enabled")))
+    for pub, const in (("enable_debug", True), ("disable_debug", False)):
+        pf_ = model.func(MODES, pub)
+        if pf_ in gens:
+            cm = any(ast.unparse(d).endswith("contextmanager") for d in pf_.node.decorator_list)
+            inst_const = [c for c in own_nodes(pf_.node) if isinstance(c, ast.Call) and _callee_name(c) == "set_debug_mode" and c.args and isinstance(c.args[0], ast.Constant)]
+            if cm and inst_const and all(c.args[0].value is const for c in inst_const):
+                P.ok(pf_.fq, "%s is a context manager that installs the constant mode %s" % (pub, const))
+            else:
+                P.bad(pf_, pf_.node, "%s must be a @contextmanager generator that installs set_debug_mode(%s)" % (pub, const))
+        else:
+            rets = [r for r in own_nodes(pf_.node) if isinstance(r, ast.Return) and isinstance(r.value, ast.Call)]
+            ok_del = False
+            if len(rets) == 1 and isinstance(rets[0].value.func, ast.Name):
+                tgt = model.module(MODES).functions.get(rets[0].value.func.id)
+                a = rets[0].value.args
+                ok_del = tgt in gens and len(a) == 1 and isinstance(a[0], ast.Constant) and a[0].value is const and \
+                    any(ast.unparse(d).endswith("contextmanager") for d in tgt.node.decorator_list)
+            if ok_del:
+                P.ok(pf_.fq, "%s returns the shared context manager %s(%s)" % (pub, rets[0].value.func.id, const))
+            else:
+                P.bad(pf_, pf_.node, "%s is neither a context manager switching the flag nor a call of one with the constant %s" % (pub, const))
+    if not gens:
+        raise AnalysisError("no generator switching the debug flag found in debug/modes.py")
     for sp in specs:
         f = model.func(sp.rel, sp.qual)
         cfg = CFG(f.node)
@@ -371,15 +405,53 @@ def _lifo(model: Model, L: RuleResult):
 
 
 # ------------------------------------------------------------------------------------------------- O
+def setparams_structure(model: Model, O: RuleResult):
+    """EditableModule.setparams installs with set_attr and falls back to delete-then-set only when set_attr raises TypeError (a slot
+    holding an nn.Parameter): an unconditional delete re-inserts dict keys / module slots at the end, permanently re-ordering the
+    caller's containers."""
+    f = model.func(EM, "EditableModule.setparams")
+    loops = [l for l in own_nodes(f.node) if isinstance(l, ast.For)]
+    ok = False
+    why = "no loop over zip(paramnames, params)"
+    if len(loops) == 1 and len(loops[0].body) == 1 and isinstance(loops[0].body[0], ast.Try):
+        tr = loops[0].body[0]
+        body_calls = [_callee_name(c) for s_ in tr.body for c in ast.walk(s_) if isinstance(c, ast.Call)]
+        h_ok = len(tr.handlers) == 1 and tr.handlers[0].type is not None and ast.unparse(tr.handlers[0].type) == "TypeError"
+        h_calls = [_callee_name(c) for h in tr.handlers for s_ in h.body for c in ast.walk(s_) if isinstance(c, ast.Call)]
+        ok = body_calls == ["set_attr"] and h_ok and h_calls == ["del_attr", "set_attr"] and not tr.finalbody and not tr.orelse
+        why = "try: %s / except %s: %s" % (body_calls, ast.unparse(tr.handlers[0].type) if tr.handlers and tr.handlers[0].type else None, h_calls)
+    elif loops:
+        why = "loop body is `%s`" % "; ".join(norm_stmt(s_, 40) for s_ in loops[0].body)
+    if ok:
+        O.ok(f.fq, "setparams: set_attr first; delete-then-set only in the TypeError fallback (container order is preserved)")
+    else:
+        O.bad(f, loops[0] if loops else f.node, "setparams must try set_attr(self, name, val) and delete-then-set only on TypeError (%s): deleting unconditionally re-inserts "
+              "dict entries at the end, so a module whose method depends on the iteration order of a dict of tensors is permanently changed" % why)
+    it = ast.unparse(loops[0].iter).replace(" ", "") if loops else ""
+    if it == "zip(paramnames,params)":
+        O.ok(f.fq, "setparams pairs the cached parameter names with the given tensors in order")
+    else:
+        O.bad(f, loops[0] if loops else f.node, "setparams must iterate zip(paramnames, params)")
+
+
 def _order(model: Model, O: RuleResult):
     init = model.func(PF, "TorchNNPureFunction._get_all_obj_params_init")
     setter = model.func(PF, "TorchNNPureFunction._set_all_obj_params")
     src = ast.unparse(init.node)
     names_from = [s for s in own_nodes(init.node) if isinstance(s, ast.Assign) and any(isinstance(t, ast.Attribute) and t.attr == "names" for t in s.targets)]
-    if "named_parameters()" in src and names_from:
-        O.ok(init.fq, "parameter names captured from named_parameters() (registration order) into self.names")
+    # every registered parameter is captured: the source is named_parameters() itself, not a filtered view of it (a partial
+    # delete/re-register cycle moves the cycled parameters behind the others)
+    filt = [n for n in ast.walk(init.node) if isinstance(n, (ast.ListComp, ast.GeneratorExp, ast.SetComp, ast.DictComp)) and "named_parameters()" in ast.unparse(n)
+            and any(g.ifs for g in n.generators)]
+    filt += [n for n in ast.walk(init.node) if isinstance(n, ast.Call) and ast.unparse(n.func) == "filter" and "named_parameters()" in ast.unparse(n)]
+    cond_skip = [n for n in ast.walk(init.node) if isinstance(n, ast.For) and "named_parameters()" in ast.unparse(n.iter)
+                 and any(isinstance(x, (ast.Continue, ast.If)) for b in n.body for x in ast.walk(b))]
+    if "named_parameters()" in src and names_from and not filt and not cond_skip:
+        O.ok(init.fq, "ALL parameter names are captured from named_parameters() (registration order, unfiltered) into self.names")
     else:
-        O.bad(init, init.node, "parameter names must be captured from named_parameters()")
+        O.bad(init, (filt + cond_skip + [init.node])[0] if not isinstance((filt + cond_skip + [init.node])[0], ast.expr) else enclosing_stmt((filt + cond_skip)[0]),
+              "parameter names must be captured from named_parameters() unfiltered: with some parameters left out the delete/re-register cycle is partial and "
+              "re-registers the cycled parameters behind the others (registration order of the caller's module changes)")
     loops = [n for n in own_nodes(setter.node) if isinstance(n, ast.For)]
     if len(loops) != 1:
         O.bad(setter, setter.node, "expected one loop over the captured names")
